@@ -16,7 +16,7 @@ LEVEL = "fault_enumeration"
 RULE = (
     "generated commands, responses, structures and streams: the whole input and every cut point (strict mode; warn mode on the whole input and on every second cut point, thorough: all), with a counting byte "
     "source (pull log vs running sum of emitted field bytes); 11 other source kinds (file objects through bytes_from_files, an iterator with close(), bytes, bytearray, list, tuple, iterator, "
-    "generator, memoryview, array, deque) must give identical events / outcome; hex and swtpm-log renderings with layout "
+    "generator, memoryview, array, deque) must give identical events / outcome on the whole input and (one other kind per cut point, rotating) on every prefix; hex and swtpm-log renderings with layout "
     "noise fed through a counting character source; several files through bytes_from_files with logged read() calls; "
     "distinct = distinct (type/code, cut position) and (front-end, stream, layout) cases"
 )
@@ -117,6 +117,13 @@ def check_base(base, rec, rng, thorough):
         t = TR.run(fc.t, fc.d, strict=True, cc=fc.cc, enc=fc.enc)
         rec.case(fc.sig, nontrivial=True)
         lookahead(t, rec, fc)
+        # the prefix from another kind of source (sized ones - bytes, bytearray, list - in particular): same events, same outcome
+        kinds = TR.CountingSource.KINDS[1:]
+        kind = kinds[(cut + len(base.d)) % len(kinds)]
+        o = TR.run(fc.t, fc.d, strict=True, cc=fc.cc, enc=fc.enc, source_kind=kind)
+        rec.count("prefix_source_kind_runs")
+        if not same_trace(t, o):
+            rec.violation("source-kind", f"prefix:{kind}", f"{fc.short()}\nthe prefix from a {kind} source: {len(o.events)} events / {o.outcome[0]}, from a counting iterator: {len(t.events)} events / {t.outcome[0]}", fc.replay(source=kind))
         # prefix stability
         n = len(t.mevents)
         ok = n <= len(whole.mevents) and all(
@@ -174,5 +181,9 @@ def replay(r, rec):
     if case.fault and case.fault.get("kind") == "cut":
         t = TR.run(case.t, case.d, strict=True, cc=case.cc, enc=case.enc)
         lookahead(t, rec, case)
+        if r.get("source"):
+            o = TR.run(case.t, case.d, strict=True, cc=case.cc, enc=case.enc, source_kind=r["source"])
+            if not same_trace(t, o):
+                rec.violation("source-kind", f"prefix:{r['source']}", f"the prefix from a {r['source']} source: {len(o.events)} events / {o.outcome[0]}, from a counting iterator: {len(t.events)} events / {t.outcome[0]}", r)
     else:
         check_base(case, rec, random.Random(0), True)
